@@ -126,6 +126,24 @@ func randGFF(r *rand.Rand, L int) *gffRecord {
 		}
 		rec.Feats = append(rec.Feats, f)
 	}
+	// a gene model: children name their parent's ID; an unstranded child (".") of a stranded parent keeps its "."
+	if len(rec.Feats) >= 2 && r.Intn(4) == 0 {
+		pa := r.Intn(len(rec.Feats))
+		rec.Feats[pa].Strand = []string{"+", "-"}[r.Intn(2)]
+		pid, ok := rec.Feats[pa].Attrs["ID"]
+		if !ok {
+			pid = "gene" + fmt.Sprint(r.Intn(1000))
+			rec.Feats[pa].Attrs["ID"] = pid
+		}
+		for n := 1 + r.Intn(3); n > 0; n-- {
+			ch := r.Intn(len(rec.Feats))
+			if ch == pa {
+				continue
+			}
+			rec.Feats[ch].Attrs["Parent"] = pid
+			rec.Feats[ch].Strand = []string{".", ".", "?", "+", "-"}[r.Intn(5)]
+		}
+	}
 	// a row may occur twice, letter for letter (merged annotation tracks): both are features
 	if len(rec.Feats) >= 1 && len(rec.Feats) < 30 && r.Intn(8) == 0 {
 		src := rec.Feats[r.Intn(len(rec.Feats))]
